@@ -1,1 +1,197 @@
-fn main(){ println!("{:?}", ppp::HeaderResult::parse(b"PROXY UNKNOWN\r\n")); }
+//! pppsim — deterministic simulation with fault injection for misalcedo/ppp.
+//!
+//!   pppsim check <ID> <quick|thorough>     run a check, write evidence, exit 0/1/2
+//!   pppsim replay <file> [--quiet]         re-execute a replay file (exit 1 if it reproduces)
+//!   pppsim digest <ID> <runs> <workers> [out]   per-run event-log digests (determinism self-test)
+//!   pppsim roundtrip <ID> <runs>           scenario -> JSON -> scenario -> same digest (replay self-test)
+//!   pppsim show <ID> <index>               print the scenario of a run index and its trace
+
+#![allow(dead_code)]
+mod checks;
+mod engine;
+mod faults;
+mod recv;
+mod rng;
+mod scenario;
+mod transport;
+mod wire;
+
+use engine::{Stats, Tier};
+use std::sync::Mutex;
+
+fn usage() -> ! {
+    eprintln!("usage: pppsim check <ID> <quick|thorough> | replay <file> [--quiet] | digest <ID> <runs> <workers> [out] | roundtrip <ID> <runs> | show <ID> <index>");
+    std::process::exit(2);
+}
+
+fn tier_of(s: &str) -> Tier {
+    match s {
+        "quick" => Tier::Quick,
+        "thorough" => Tier::Thorough,
+        _ => usage(),
+    }
+}
+
+fn main() {
+    recv::install_panic_hook();
+    let args: Vec<String> = std::env::args().collect();
+    if args.len() < 2 {
+        usage();
+    }
+    match args[1].as_str() {
+        "check" => {
+            if args.len() < 4 {
+                usage();
+            }
+            let check = checks::by_id(&args[2]).unwrap_or_else(|| {
+                eprintln!("pppsim: no check for property {}", args[2]);
+                std::process::exit(2);
+            });
+            let out = engine::run_check(check.as_ref(), tier_of(&args[3]));
+            std::process::exit(out.exit_code);
+        }
+        "replay" => {
+            if args.len() < 3 {
+                usage();
+            }
+            let quiet = args.iter().any(|a| a == "--quiet");
+            let rp = match engine::read_replay(&args[2]) {
+                Ok(r) => r,
+                Err(e) => {
+                    eprintln!("pppsim: {}", e);
+                    std::process::exit(2);
+                }
+            };
+            let check = checks::by_id(&rp.scenario.check).unwrap_or_else(|| {
+                eprintln!("pppsim: no check for property {}", rp.scenario.check);
+                std::process::exit(2);
+            });
+            let mut st = Stats {
+                trace: Some(Vec::new()),
+                ..Default::default()
+            };
+            let vs = check.execute(&rp.scenario, &mut st);
+            if !quiet {
+                println!(
+                    "replay of {} ({} clause {}), profile {}",
+                    args[2],
+                    rp.property,
+                    rp.clause,
+                    engine::build_profile()
+                );
+                for l in st.trace.unwrap_or_default() {
+                    println!("  {}", l);
+                }
+                println!("  event-log digest {:016x}", st.run_digest.finish());
+            }
+            let same: Vec<_> = vs.iter().filter(|v| v.clause == rp.clause).collect();
+            if let Some(v) = same.first() {
+                if !quiet {
+                    println!("  signature: {}", v.signature());
+                    println!("  detail: {}", v.detail);
+                }
+                println!(
+                    "VIOLATION property={} replay={}",
+                    rp.scenario.check, args[2]
+                );
+                std::process::exit(1);
+            }
+            if !quiet {
+                if vs.is_empty() {
+                    println!("no violation: the scenario passes on this tree");
+                } else {
+                    println!(
+                        "the recorded clause did not reproduce; other clauses fired: {:?}",
+                        vs.iter().map(|v| v.clause.clone()).collect::<Vec<_>>()
+                    );
+                }
+            }
+            std::process::exit(0);
+        }
+        "digest" => {
+            if args.len() < 5 {
+                usage();
+            }
+            let check = checks::by_id(&args[2]).unwrap_or_else(|| usage());
+            let runs: u64 = args[3].parse().unwrap_or_else(|_| usage());
+            let workers: usize = args[4].parse().unwrap_or_else(|_| usage());
+            let per_run = Mutex::new(Vec::new());
+            let res = engine::run_batch(
+                check.as_ref(),
+                engine::master_seed(),
+                runs,
+                Tier::Quick,
+                workers,
+                3600.0,
+                Some(&per_run),
+            );
+            let mut v = per_run.into_inner().unwrap();
+            v.sort_unstable();
+            let mut text = String::new();
+            for (i, d) in &v {
+                text.push_str(&format!("{} {:016x}\n", i, d));
+            }
+            text.push_str(&format!(
+                "batch {:016x} violations {}\n",
+                res.stats.batch_digest,
+                res.violations.len()
+            ));
+            if args.len() > 5 {
+                std::fs::write(&args[5], text).expect("write digest file");
+            } else {
+                print!("{}", text);
+            }
+        }
+        "roundtrip" => {
+            if args.len() < 4 {
+                usage();
+            }
+            let check = checks::by_id(&args[2]).unwrap_or_else(|| usage());
+            let runs: u64 = args[3].parse().unwrap_or_else(|_| usage());
+            let master = engine::master_seed();
+            let mut bad = 0;
+            for i in 0..runs {
+                let sc = engine::scenario_for(check.as_ref(), master, i, Tier::Quick);
+                let mut a = Stats::default();
+                let va = check.execute(&sc, &mut a);
+                let text = serde_json::to_string(&sc.to_json()).unwrap();
+                let back = scenario::Scenario::from_json(&serde_json::from_str(&text).unwrap())
+                    .unwrap_or_else(|e| {
+                        eprintln!("pppsim: run {}: cannot read scenario back: {}", i, e);
+                        std::process::exit(2);
+                    });
+                let mut b = Stats::default();
+                let vb = check.execute(&back, &mut b);
+                if a.run_digest.finish() != b.run_digest.finish() || va.len() != vb.len() {
+                    eprintln!("pppsim: run {}: replayed scenario diverges from in-memory execution", i);
+                    bad += 1;
+                }
+            }
+            if bad > 0 {
+                std::process::exit(2);
+            }
+            println!("roundtrip ok: {} scenarios of {}", runs, args[2]);
+        }
+        "show" => {
+            if args.len() < 4 {
+                usage();
+            }
+            let check = checks::by_id(&args[2]).unwrap_or_else(|| usage());
+            let index: u64 = args[3].parse().unwrap_or_else(|_| usage());
+            let sc = engine::scenario_for(check.as_ref(), engine::master_seed(), index, Tier::Quick);
+            println!("{}", serde_json::to_string_pretty(&sc.to_json()).unwrap());
+            let mut st = Stats {
+                trace: Some(Vec::new()),
+                ..Default::default()
+            };
+            let vs = check.execute(&sc, &mut st);
+            for l in st.trace.unwrap_or_default() {
+                println!("  {}", l);
+            }
+            for v in vs {
+                println!("violation: {} :: {}", v.signature(), v.detail);
+            }
+        }
+        _ => usage(),
+    }
+}
